@@ -212,6 +212,13 @@ def fileSizeAtom (fs : Option Nat) (gt : Bool) (n : Nat) : Bool :=
   | none => false
   | some s => if gt then decide (n < s) else decide (s < n)
 
+/-- `OP_MATCH_RULE` on an integer-valued condition: `!is_undef(r1) && r1.i` — defined and non-zero,
+    negative values included -/
+def intCondHolds (v : Option Int) : Bool :=
+  match v with
+  | none => false
+  | some i => i != 0
+
 /-! ### the matching phase and `CALLBACK_MSG_TOO_MANY_MATCHES` (scan.c) -/
 
 /-- conditions as written: a string is referred to by its index `YR_STRING.idx` -/
